@@ -29,6 +29,8 @@ func init() {
 }
 
 func runC10(c *report.Ctx) {
+	checkErrorIdentity(c, scopeFrontEnd, frontEndDeadCases, 8)
+	checkAwaitReleaseOnlyOnSuccess(c)
 	c.Clause("1 reservation test-and-set")
 	checkReservation(c)
 	c.Clause("2 no result used on its error path")
